@@ -7,37 +7,38 @@ package saml2
 
 import (
 	"bytes"
-	"encoding/xml"
-	"html"
-	"net/url"
 	"crypto/tls"
 	"crypto/x509"
+	"encoding/xml"
+	"html"
 	"math/big"
+	"net/url"
 	"strings"
+	_ "time/tzdata"
 
-	"github.com/beevik/etree"
-	"regexp"
+	"compress/flate"
+	"crypto"
 	"crypto/aes"
 	"crypto/cipher"
+	"crypto/rand"
 	"crypto/rsa"
 	"crypto/sha1"
-	"crypto/sha512"
-	"hash"
-	"crypto"
-	"encoding/base64"
-	"reflect"
-	"unsafe"
-	"crypto/rand"
 	"crypto/sha256"
+	"crypto/sha512"
+	"encoding/base64"
 	"encoding/binary"
-	"compress/flate"
 	"encoding/json"
-	"io"
-	"runtime"
 	"fmt"
+	"github.com/beevik/etree"
+	"hash"
+	"io"
+	"reflect"
+	"regexp"
+	"runtime"
 	"strconv"
 	"sync"
 	"time"
+	"unsafe"
 
 	"github.com/jonboulle/clockwork"
 	dsig "github.com/russellhaering/goxmldsig"
@@ -176,7 +177,7 @@ func (c *vxClock) Now() time.Time {
 		if utc, _ := vx.inputs[key+".utc"].(bool); utc {
 			t = t.UTC()
 		} else {
-			t = t.In(time.FixedZone("vx", 2*3600))
+			t = t.In(vxLocalZone())
 		}
 	} else if len(c.seen) > 0 {
 		t = c.seen[len(c.seen)-1]
@@ -185,6 +186,15 @@ func (c *vxClock) Now() time.Time {
 	}
 	c.seen = append(c.seen, t)
 	return t
+}
+
+// vxLocalZone: the zone of non-UTC clock readings: Europe/Berlin (daylight saving) from the toolchain's embedded
+// zone data, a fixed +02:00 offset if that is unavailable.
+func vxLocalZone() *time.Location {
+	if loc, err := time.LoadLocation("Europe/Berlin"); err == nil {
+		return loc
+	}
+	return time.FixedZone("vx", 2*3600)
 }
 
 func vClock(name string) *dsig.Clock {
@@ -246,8 +256,8 @@ func vParseNs(s string) int64 {
 	}
 	return t.UnixNano()
 }
-func vNs(t time.Time) int64    { return t.UnixNano() }
-func vIsUTC(t time.Time) bool  { return t.Location() == time.UTC }
+func vNs(t time.Time) int64   { return t.UnixNano() }
+func vIsUTC(t time.Time) bool { return t.Location() == time.UTC }
 func vClockReads(name string) int {
 	if c, ok := vx.clocks[name]; ok {
 		return c.reads
@@ -258,8 +268,8 @@ func vClockAt(name string, k int) int64 {
 	c := vx.clocks[name]
 	return c.seen[k].UnixNano()
 }
-func vWallReads() int                { return 0 }
-func vEventCount(prefix string) int  { return 0 }
+func vWallReads() int               { return 0 }
+func vEventCount(prefix string) int { return 0 }
 func vPanicked(f func()) (p bool) {
 	defer func() {
 		if r := recover(); r != nil {
@@ -535,7 +545,7 @@ func vB64OK(s string) bool {
 	return err == nil
 }
 func vByteAt(b []byte, i int) byte { return b[i] }
-func vRSADecryptCalls() int       { return 0 }
+func vRSADecryptCalls() int        { return 0 }
 
 func vGCMTagOK(name string) bool {
 	ok, _ := vx.inputs[name+".gcm_ok"].(bool)
@@ -806,6 +816,10 @@ func vxRenderBytes(root *etree.Element) []byte {
 func vEncodeDoc(name string, root *etree.Element, mode int) string {
 	n := vxFresh(name)
 	raw := vxRenderBytes(root)
+	if fb := vxI64(n + ".first_byte"); fb == ' ' || fb == '\n' || fb == '\t' || fb == '\r' {
+		// white space before the root element, as the model chose
+		raw = append([]byte{byte(fb)}, raw...)
+	}
 	switch mode {
 	case 1:
 		if vxI64("xmlpartial.leak") == 1 {
@@ -898,7 +912,7 @@ func vEncryptTree(name string, inner *etree.Element, key []byte, compressed bool
 }
 
 func vValidateCtxOK(sp *SAMLServiceProvider) bool { return true }
-func vValidateCalls() int                          { return 0 }
+func vValidateCalls() int                         { return 0 }
 func vCertRejections() int {
 	n := 0
 	for k, v := range vx.inputs {
@@ -910,9 +924,9 @@ func vCertRejections() int {
 	}
 	return n
 }
-func vScreenedEqualsParsed() bool              { return true }
-func vScreenCalls() int                        { return 1 }
-func vWireInflatedLen(name string) int64       { return 0 }
+func vScreenedEqualsParsed() bool        { return true }
+func vScreenCalls() int                  { return 1 }
+func vWireInflatedLen(name string) int64 { return 0 }
 func vSerialised(doc *etree.Document) string {
 	s, _ := doc.WriteToString()
 	return s
@@ -931,7 +945,7 @@ func vIDString(name string) string {
 	return fmt.Sprintf("_id%x", []byte(s))
 }
 
-func vEmptyStore() dsig.X509CertificateStore                 { return &dsig.MemoryX509CertificateStore{} }
+func vEmptyStore() dsig.X509CertificateStore                { return &dsig.MemoryX509CertificateStore{} }
 func vValidateCtxSince(k int, sp *SAMLServiceProvider) bool { return true }
 
 // vCertBytes: a real certificate for key "sp" with the solver's validity bounds, or garbage / nothing.
@@ -1003,8 +1017,8 @@ func vURLTenant(u string) string {
 	}
 	return pu.Query().Get("tenant")
 }
-func vURLHasTenant(u string) bool { return strings.Contains(u, "?tenant=") }
-func vQEsc(s string) string       { return url.QueryEscape(s) }
+func vURLHasTenant(u string) bool     { return strings.Contains(u, "?tenant=") }
+func vQEsc(s string) string           { return url.QueryEscape(s) }
 func vQueryString(name string) string { return vString(name) }
 func vDeflated(s string) string {
 	var b bytes.Buffer
@@ -1059,8 +1073,8 @@ func vTreeSig(e *etree.Element) string {
 }
 
 // natively the digest is not observable: the real signature is verified instead by vxVerifyEnveloped
-func vDigestCovered(k int) string { return vxLastCovered }
-func vDigestCalls() int           { return 1 }
+func vDigestCovered(k int) string             { return vxLastCovered }
+func vDigestCalls() int                       { return 1 }
 func vSignDigestKeyIs(k *rsa.PrivateKey) bool { return true }
 
 var vxLastCovered string
@@ -1130,11 +1144,11 @@ func vContains(s, sub string) bool { return strings.Contains(s, sub) }
 
 // ---- C17 natives ----
 
-func vTraceStart(sp *SAMLServiceProvider)           {}
-func vTraceCut(published *dsig.SigningContext)      {}
-func vTraceEnd()                                    {}
-func vGlobalWritesReset()                           {}
-func vGlobalWrites() int                            { return 0 }
+func vTraceStart(sp *SAMLServiceProvider)      {}
+func vTraceCut(published *dsig.SigningContext) {}
+func vTraceEnd()                               {}
+func vGlobalWritesReset()                      {}
+func vGlobalWrites() int                       { return 0 }
 
 var vxRaceSP *SAMLServiceProvider
 
@@ -1342,11 +1356,11 @@ func vMarshalRoundTrip(v interface{}, out interface{}) bool {
 }
 
 // natively the hash / canonicaliser really used are checked by verifying the signature (vSignatureCovers)
-func vDigestHashIs(k int, h crypto.Hash) bool            { return true }
-func vDigestCanonIs(k int, c dsig.Canonicalizer) bool   { return true }
+func vDigestHashIs(k int, h crypto.Hash) bool         { return true }
+func vDigestCanonIs(k int, c dsig.Canonicalizer) bool { return true }
 
 func vScreenRejections() int { return 0 }
 
 // natively the configuration is compared before/after (vConfigSig); writes are not observable
-func vWatch(sp *SAMLServiceProvider)            {}
-func vWatchedWritesExcept(field string) int   { return 0 }
+func vWatch(sp *SAMLServiceProvider)        {}
+func vWatchedWritesExcept(field string) int { return 0 }
